@@ -239,6 +239,18 @@ class RatioWorld(StatWorld):
         self.ids = [T(self.INNER[0] - 3)] + inner + [T(self.INNER[-1] + 3)]
 
     def call_method(self, ip, obj, name, args, kwargs, node):
+        if isinstance(obj, SnapshotOf):
+            # the slice is a DynGraph holding the interactions present in the window (C06): what networkx.density asks of it
+            n_, m_ = self._slice_counts(obj)
+            if name in ("number_of_nodes", "order", "__len__") and not args:
+                return Const(n_)
+            if name in ("number_of_edges", "size", "number_of_interactions") and not args:
+                return Const(m_)
+            if name == "is_directed" and not args:
+                return Const(False)
+            if name == "is_multigraph" and not args:
+                return Const(False)
+            raise Unsupported(node, "method %s of a slice inside a statistic" % name)
         if isinstance(obj, SelfV) and name == "time_slice" and not isinstance(obj, SnapshotOf):
             lo = args[0] if args else kwargs.get("t_from")
             hi = args[1] if len(args) > 1 else kwargs.get("t_to", NONE)
@@ -251,7 +263,21 @@ class RatioWorld(StatWorld):
             raise Unsupported(node, "time_slice(%r, %r) inside a statistic" % (lo, hi))
         return super().call_method(ip, obj, name, args, kwargs, node)
 
+    def _slice_counts(self, sl):
+        window = [t for t in self.ids if t.base == sl.lo.base and sl.lo.k <= t.k <= sl.hi.k]
+        pairs = [k for k in sorted({self.shape.key(*e) for e in self.shape.edges}, key=str) if any(self.present(k[0], k[1], t) for t in window)]
+        return len({x for k in pairs for x in k}), len(pairs)
+
+    def load_attr(self, ip, obj, attr, node):
+        if isinstance(obj, SnapshotOf):
+            from .absint import BoundMethod
+            return BoundMethod(obj, attr)
+        return super().load_attr(ip, obj, attr, node)
+
     def call(self, ip, f, args, kwargs, node):
+        if isinstance(f, Opaque) and f.tag in ("module:nx.number_of_nodes", "module:nx.number_of_edges", "module:nx.is_directed") \
+                and len(args) == 1 and isinstance(args[0], SnapshotOf):
+            return self.call_method(ip, args[0], f.tag.rsplit(".", 1)[1], [], {}, node)
         if isinstance(f, Opaque) and f.tag in ("module:nx.density", "module:networkx.density") and len(args) == 1 and isinstance(args[0], SnapshotOf):
             # networkx.density of an undirected simple graph: 2m / (n (n - 1)), 0 for fewer than two nodes
             window = [t for t in self.ids if t.base == args[0].lo.base and args[0].lo.k <= t.k <= args[0].hi.k]
